@@ -66,7 +66,9 @@ def gen_cases(tier, seed):
         if drive["currents"].get("kind") == "switch" and len(dev["terminals"]) >= 3:
             # terminals that carry no current in a phase are simply not named by the function in that phase
             drive["currents"]["phases"] = [{nm: v for nm, v in ph.items() if v != 0.0} for ph in drive["currents"]["phases"]]
-        if drive["currents"].get("kind") in ("callable", "pulse", "switch"):
+        if drive["currents"].get("kind") == "switch" and (k // 6) % 2 == 0:
+            drive["currents"]["persistent"] = True  # the callable returns its own pre-built level dicts
+        if drive["currents"].get("kind") in ("callable", "pulse", "switch") and not drive["currents"].get("persistent"):
             drive["currents"]["form"] = ["function", "partial", "method", "object"][(k // 2) % 4]  # every kind of callable is a callable
         if k % 8 in (1, 6) and not case.get("remesh"):
             # the Device object was solved before with other options (pinning toggled), optionally moved in place and back
@@ -82,6 +84,8 @@ def gen_cases(tier, seed):
         drive = {"A": {"kind": "zero"}, "currents": S.current_spec(rng, dev, o, ["stair", "const", "switch"][k % 3], strength=float([1e-6, 1e-9, 1e-7][k % 3]))}
         if k % 3 == 2:
             drive["currents"]["phases"] = [{nm: v for nm, v in ph.items() if v != 0.0} for ph in drive["currents"]["phases"]]  # unnamed = no current
+        if k % 3 == 0:
+            drive["currents"]["persistent"] = True
         cases.append({"device": dev, "options": o, "drive": drive, "monitors": ["charge"], "weak": True, "cost": 8})
     return cases
 
